@@ -1,12 +1,14 @@
 import PcfgVerif.Drive.PQ
 import PcfgVerif.Drive.Omen
 import PcfgVerif.Drive.Expand
+import PcfgVerif.Drive.Loader
 /-! Line-protocol driver: one operation per input line, one canonical answer line each. -/
 
 structure DState where
   pq : Drive.PQ.St := {}
   omen : Drive.Omen.St := {}
   exp : Drive.Expand.St := {}
+  ld : Drive.Loader.St := {}
 
 def dispatch (s : DState) (line : String) : DState × String :=
   let toks := (line.splitOn " ").filter (· ≠ "")
@@ -22,6 +24,9 @@ def dispatch (s : DState) (line : String) : DState × String :=
     else if cmd.startsWith "exp." then
       let (p, out) := Drive.Expand.step s.exp s.omen toks
       ({ s with exp := p }, out)
+    else if cmd.startsWith "ld." then
+      let (p, out) := Drive.Loader.step s.ld toks
+      ({ s with ld := p }, out)
     else (s, "bad-op")
 
 partial def loop (h : IO.FS.Stream) (out : IO.FS.Stream) (s : DState) : IO Unit := do
